@@ -41,7 +41,8 @@ def epReq (l : Line) : C14.EndpointReq :=
   { reqIssuer := str l "req.iss", assertion := parseToken l, bearerGrant := str l "ep" == "bearer",
     requestedScopes := list l "scope.req", refusedScopes := list l "scope.forbidden", helperMade := str l "mint" == "helper" && bool l "proper",
     clientAuth := str l "ep" != "bearer", registeredMethod := method,
-    contextOK := bool l "ctx.ok" }
+    contextOK := bool l "ctx.ok",
+    libraryAddressed := (str l "wire" == "tokensource" || str l "wire" == "rsintrospect") && bool l "ctx.ok" }
 
 def epObs (l : Line) : C14.EndpointObs :=
   { accepted := str l "obs" == "ok", identity := opt l "o.id", scopes := if has l "o.scope" then some (list l "o.scope") else none }
@@ -59,6 +60,18 @@ def monitorLine (l : Line) : Option String :=
     | some a, some _ => some a
     | _, _ => none
   | "helper" => C14.helperOK (str l "obs" == "ok")
+  | "mint" =>
+    -- the helper on its own: when it produced an assertion from a registered key, for the issuer, the verifier must accept it
+    if str l "h.obs" == "ok" && bool l "helper" then C14.helperOK (str l "obs" == "ok") else none
+  | "seq" =>
+    -- one answer of a verifier object that serves a whole sequence: judged on its own (no history argument)
+    let t := parseToken l
+    let accepted : Option Claims :=
+      if str l "obs" != "ok" then none
+      else if str l "via" == "clientauth" then some { ((t.middle.bind (·.claims)).getD {}) with iss := str l "o.id" }
+      else some (returnedClaims l)
+    C14.sequenceStepOK (str l "v.iss") (int l "v.maxiat") (int l "v.off") (!has l "v.subjcheck") registry t (bool l "helper")
+      (int l "now0") (int l "now1") accepted
   | "endpoint" =>
     let registry := Drv.C02.parseRegistry l
     let rq := epReq l
@@ -67,12 +80,15 @@ def monitorLine (l : Line) : Option String :=
     match C14.endpointSound registry rq (int l "now0") obs, C14.endpointSound registry rq (int l "now1") obs with
     | some a, some _ => some a
     | _, _ => (C14.endpointHelper registry rq obs).orElse fun _ => C14.endpointProper registry rq (int l "now0") (int l "now1") obs
-  | "reqobj" =>
+  | "reqobj" | "roendpoint" =>
     C14.requestObjectOK (str l "v.iss") registry (plainReq l) (if str l "obs" == "ok" then some (afterReq l) else none)
   | _ => some "bad-kind"
 
 def lineClass (l : Line) : String :=
-  if str l "kind" == "endpoint" then s!"endpoint:{str l "router"}:{str l "ep"}:{str l "mint"}:aud-{str l "aud"}:{str l "order"}:{str l "obs"}"
+  if str l "kind" == "endpoint" then s!"endpoint:{str l "router"}:{str l "ep"}:{str l "mint"}:aud-{str l "aud"}:{str l "order"}:{str l "vlife"}:{str l "wire"}:{str l "obs"}"
+  else if str l "kind" == "roendpoint" then s!"roendpoint:{str l "router"}:{str l "issmode"}:ro-{str l "ro.supported"}:aud-{str l "aud"}:{str l "signer"}:{str l "obs"}"
+  else if str l "kind" == "mint" then s!"mint:{str l "family"}:{str l "h.form"}:{str l "h.obs"}:{obsString l}"
+  else if str l "kind" == "seq" then s!"seq:{str l "via"}:{str l "vlife"}:{str l "rel"}:{str l "variant"}:signer-{str l "signer"}:{obsString l}"
   else s!"{str l "kind"}:{obsString l}"
 
 def stepMon (l : Line) : String :=
